@@ -28,7 +28,9 @@ class ipaddress(FieldType):
         try:
             return self.val == ip_address(b)
         except ValueError:
-            return False
+            # not something an address can be made of: let the other operand decide (the missing-field object of
+            # the selectors answers False to == and to !=)
+            return NotImplemented
 
     def __hash__(self) -> int:
         return hash(self.val)
@@ -67,7 +69,7 @@ class ipnetwork(FieldType):
         try:
             return self.val == ip_network(b)
         except ValueError:
-            return False
+            return NotImplemented
 
     def __hash__(self) -> int:
         return hash(self.val)
